@@ -375,8 +375,12 @@ def replay_equiv(p1, p2, sizes, model, timeout=120, trace_pragmas=False, rtol=1e
             lines.append(f'  print *, {o}')
         lines.append('end program rp')
         drv = '\n'.join(l for l in lines if l != '')
-        ok, so, se = RP.run_fortran([('prog.F90', body + '\n'), ('drv.F90', drv + '\n')], timeout=timeout,
-                                    flags=('-fcheck=bounds', '-ffpe-trap=zero,invalid'))
+        flags = ('-fcheck=bounds', '-ffpe-trap=zero,invalid', '-fcray-pointer')
+        if 'POINTER(' in body.upper().replace(' ', ''):
+            # Cray pointers into a scratch array: writing past the allocation is undefined behaviour that only the
+            # address sanitizer makes visible
+            flags += ('-fsanitize=address', '-g')
+        ok, so, se = RP.run_fortran([('prog.F90', body + '\n'), ('drv.F90', drv + '\n')], timeout=timeout, flags=flags)
         if not ok:
             outs.append(('FAILED', se[-400:]))
         else:
